@@ -456,7 +456,11 @@ static void cmpWell(const Well& a, const Well& b, const SchedCmpOpts& opt, Diff&
         }
         // the GRUP bit is derived from the WGRUPCON availability when the well is built from the file, while the keyword handlers
         // leave a stale bit behind after WGRUPCON 'NO': availability is compared above, the bit is masked here
-        if (!ctrlFree) d.exact("well.prod.controls", p.productionControls() & ~(int)Well::ProducerCMode::GRUP, q.productionControls() & ~(int)Well::ProducerCMode::GRUP);
+        // a producer no WCONPROD / WCONHIST has been entered for yet (control mode undefined): its own key, so that the finding recorded
+        // for that situation (the file has no way to say "no control set"; the restarted well gets BHP control at 1 atm) does not hide
+        // a difference for wells that do have controls
+        const std::string nk = p.controlMode == Well::ProducerCMode::CMODE_UNDEFINED ? ":no-control-keyword-yet" : "";
+        if (!ctrlFree) d.exact("well.prod.controls" + nk, p.productionControls() & ~(int)Well::ProducerCMode::GRUP, q.productionControls() & ~(int)Well::ProducerCMode::GRUP);
         if (open && !ctrlFree) d.enm("well.prod.controlMode", p.controlMode, q.controlMode);
         d.enm("well.prod.whistctl_cmode", p.whistctl_cmode, q.whistctl_cmode);
         // what the simulator sees: limits evaluated against the summary state (skipped when a UDA of this well has been reported as
@@ -473,7 +477,7 @@ static void cmpWell(const Well& a, const Well& b, const SchedCmpOpts& opt, Diff&
                 if (!rGas && (hist || ca.hasControl(PM::GRAT))) d.real("well.prodctl.gas_rate", ca.gas_rate, cb.gas_rate);
                 if (!rLiq && ca.hasControl(PM::LRAT)) d.real("well.prodctl.liquid_rate", ca.liquid_rate, cb.liquid_rate);
                 if (!rResv && !hist && ca.hasControl(PM::RESV)) d.real("well.prodctl.resv_rate", ca.resv_rate, cb.resv_rate);
-                if (!rBhp) d.real("well.prodctl.bhp_limit", ca.bhp_limit, cb.bhp_limit);
+                if (!rBhp) d.real("well.prodctl.bhp_limit" + nk, ca.bhp_limit, cb.bhp_limit);
                 if (!rThp && ca.hasControl(PM::THP)) d.real("well.prodctl.thp_limit", ca.thp_limit, cb.thp_limit);
                 if (!rAlq) d.real("well.prodctl.alq_value", ca.alq_value, cb.alq_value);
                 d.exact("well.prodctl.vfp_table", ca.vfp_table_number, cb.vfp_table_number);
